@@ -21,6 +21,7 @@ import (
 	"regexp"
 	"sort"
 	"strings"
+	"sync"
 	"time"
 
 	"github.com/DemoHn/Zn/pkg/exec"
@@ -151,29 +152,38 @@ func c16ProbeVector(in *exec.Interpreter) []string {
 
 // ---- concurrent requests
 type c16Req struct {
-	Name    string `json:"name"`
-	Handler string `json:"handler"` // playground | http
-	Source  string `json:"source"`
-	VarIn   string `json:"var_input,omitempty"`
+	Name    string            `json:"name"`
+	Handler string            `json:"handler"` // playground | http
+	Source  string            `json:"source"`
+	VarIn   string            `json:"var_input,omitempty"`
+	Dir     string            `json:"dir,omitempty"`   // http: the entry file lives in this sub-directory ...
+	Files   map[string]string `json:"files,omitempty"` // ... next to these module files
+}
+
+func c16R(name, handler, source, varIn string) c16Req {
+	return c16Req{Name: name, Handler: handler, Source: source, VarIn: varIn}
 }
 
 var c16Reqs = []c16Req{
-	{"a-local", "playground", "令甲 = 1\n（显示：甲）\n令乙 = 甲 + 1\n输出乙", ""},
-	{"b-local", "playground", "令甲 = 10\n（显示：甲）\n令乙 = 甲 + 10\n输出乙", ""},
-	{"c-mutate-global", "playground", "以数值（自增：1）\n输出数值", ""},
-	{"d-read-global", "playground", "令甲 = 数值\n输出甲", ""},
-	{"e-hijack-ctor", "playground", "如何新建异常？\n    输入M\n    （显示：“hijacked”）\n输出1", ""},
-	{"f-throw", "playground", "抛出异常：“m”！\n拦截异常：\n    输出其内容", ""},
-	{"g-json", "playground", "导入《@JSON》\n令甲 = （生成JSON：【a=1】）\n输出甲", ""},
-	{"h-error", "playground", "令甲 = 1\n输出甲 / 0", ""},
-	{"i-varinput", "playground", "输入甲\n输出甲 * 2", "甲 = 21"},
+	c16R("a-local", "playground", "令甲 = 1\n（显示：甲）\n令乙 = 甲 + 1\n输出乙", ""),
+	c16R("b-local", "playground", "令甲 = 10\n（显示：甲）\n令乙 = 甲 + 10\n输出乙", ""),
+	c16R("c-mutate-global", "playground", "以数值（自增：1）\n输出数值", ""),
+	c16R("d-read-global", "playground", "令甲 = 数值\n输出甲", ""),
+	c16R("e-hijack-ctor", "playground", "如何新建异常？\n    输入M\n    （显示：“hijacked”）\n输出1", ""),
+	c16R("f-throw", "playground", "抛出异常：“m”！\n拦截异常：\n    输出其内容", ""),
+	c16R("g-json", "playground", "导入《@JSON》\n令甲 = （生成JSON：【a=1】）\n输出甲", ""),
+	c16R("h-error", "playground", "令甲 = 1\n输出甲 / 0", ""),
+	c16R("i-varinput", "playground", "输入甲\n输出甲 * 2", "甲 = 21"),
 	// the predefined random source (the value is random by design: it is not part of the answer)
-	{"n-random", "playground", "令甲 = （取随机数）\n令乙 = （取随机数）\n输出甲 >= 0 且 乙 < 1", ""},
-	{"j-file-1", "http", "令甲 = “file-one”\n输出甲", ""},
-	{"k-file-2", "http", "令甲 = “file-two”\n输出甲", ""},
+	c16R("n-random", "playground", "令甲 = （取随机数）\n令乙 = （取随机数）\n输出甲 >= 0 且 乙 < 1", ""),
+	c16R("j-file-1", "http", "令甲 = “file-one”\n输出甲", ""),
+	c16R("k-file-2", "http", "令甲 = “file-two”\n输出甲", ""),
 	// the request object of a bare request (no headers, no query): mutated in place / read
-	{"l-req-mutate", "http", "输入当前请求\n以当前请求之查询参数（写入：“k”、“v”）\n以当前请求之头部（写入：“h”、“v”）\n输出【当前请求之查询参数之长度，当前请求之头部之长度】", ""},
-	{"m-req-read", "http", "输入当前请求\n输出【当前请求之查询参数之长度，当前请求之头部之长度，当前请求之方法，当前请求之路径】", ""},
+	c16R("l-req-mutate", "http", "输入当前请求\n以当前请求之查询参数（写入：“k”、“v”）\n以当前请求之头部（写入：“h”、“v”）\n输出【当前请求之查询参数之长度，当前请求之头部之长度】", ""),
+	// two applications in two directories, each with its own module of the SAME name
+	{Name: "o-dir1-module", Handler: "http", Source: "导入“工具”\n输出（值）", Dir: "甲站", Files: map[string]string{"工具.zn": "如何值？\n    输出100"}},
+	{Name: "p-dir2-module", Handler: "http", Source: "导入“工具”\n输出（值） + （另值）", Dir: "乙站", Files: map[string]string{"工具.zn": "如何值？\n    输出250\n如何另值？\n    输出1"}},
+	c16R("m-req-read", "http", "输入当前请求\n输出【当前请求之查询参数之长度，当前请求之头部之长度，当前请求之方法，当前请求之路径】", ""),
 }
 
 var c16Dir string
@@ -198,8 +208,16 @@ func c16Serve(in *exec.Interpreter, rq c16Req) string {
 		req := httptest.NewRequest("POST", "http://h/run", bytes.NewReader(body))
 		server.NewZnPlaygroundHandler(in).ServeHTTP(w, req)
 	default:
-		p := filepath.Join(c16TempDir(), rq.Name+".zn")
+		dir := c16TempDir()
+		if rq.Dir != "" {
+			dir = filepath.Join(dir, rq.Dir)
+		}
+		p := filepath.Join(dir, rq.Name+".zn")
 		if _, err := os.Stat(p); err != nil {
+			os.MkdirAll(dir, 0o755)
+			for n, src := range rq.Files {
+				os.WriteFile(filepath.Join(dir, n), []byte(src), 0o644)
+			}
 			os.WriteFile(p, []byte(rq.Source), 0o644)
 		}
 		req := httptest.NewRequest("GET", "http://h/x", nil)
@@ -215,6 +233,7 @@ func c16NewInterp() *exec.Interpreter {
 type c16Case struct {
 	Part      string   `json:"part"`
 	Polluters []string `json:"polluters,omitempty"`
+	Repeat    int      `json:"each_polluter_repeated,omitempty"` // > 1: every polluter is run this many times in a row
 	Shared    bool     `json:"shared_interpreter,omitempty"`
 	Requests  []string `json:"requests,omitempty"`
 	Choices   []int    `json:"schedule,omitempty"`
@@ -297,18 +316,24 @@ func c16CheckCanary(cs c16Case) *mc.Failure {
 
 // sequential case: run the polluters, then the probe vector
 func c16CheckSeq(pol []string, shared bool, expected []string) (fail *mc.Failure, observed []string) {
+	return c16CheckSeqRep(pol, 1, shared, expected)
+}
+
+func c16CheckSeqRep(pol []string, rep int, shared bool, expected []string) (fail *mc.Failure, observed []string) {
 	var in *exec.Interpreter
 	if shared {
 		in = c16NewInterp()
 	}
 	for _, p := range pol {
-		c16Exec(in, p)
+		for i := 0; i < rep; i++ {
+			c16Exec(in, p)
+		}
 	}
 	observed = c16ProbeVector(in)
 	for i := range observed {
 		if observed[i] != expected[i] {
 			sig := ""
-			return &mc.Failure{Sig: sig, Kind: "mismatch", Bucket: fmt.Sprintf("seq-probe-%d", i), Case: mc.J(c16Case{Part: "sequential", Polluters: pol, Shared: shared}),
+			return &mc.Failure{Sig: sig, Kind: "mismatch", Bucket: fmt.Sprintf("seq-probe-%d", i), Case: mc.J(c16Case{Part: "sequential", Polluters: pol, Repeat: rep, Shared: shared}),
 				Expected: fmt.Sprintf("probe %q -> %s (as in a fresh process)", c16Probes[i], expected[i]), Observed: observed[i]}, observed
 		}
 	}
@@ -485,6 +510,38 @@ func init() {
 					seq([]string{p}, sh)
 				}
 			}
+			// repetition: every hand-written polluter 300 times in a row (a resource that leaks a
+			// little on one path only shows after many executions), then the probes
+			var hand []string
+			for _, p := range pol {
+				if !(strings.HasPrefix(p, "以") && strings.HasSuffix(p, "：1）") && !strings.Contains(p, "\n")) {
+					hand = append(hand, p) // not one of the generated 以‹global›（‹method›：1）
+				}
+			}
+			for _, sh := range []bool{true, false} {
+				for _, p := range hand {
+					idx++
+					if !c.Mine(idx) {
+						continue
+					}
+					pp, ssh := p, sh
+					c.Case(idx, func() json.RawMessage {
+						return mc.J(c16Case{Part: "sequential", Polluters: []string{pp}, Repeat: 300, Shared: ssh})
+					})
+					f, obs := c16CheckSeqRep([]string{p}, 300, sh, expected)
+					c.Eval(true)
+					c.Stat("repeated_polluter_histories", 1)
+					c.Stat("transitions", int64(300+len(c16Probes)))
+					if f != nil {
+						c.Fail(*f)
+						expected = obs
+						c.Stat("rebaselined_after_failure", 1)
+					}
+					if f := c16CheckCanary(c16Case{Part: "sequential", Polluters: []string{p}, Repeat: 300, Shared: sh}); f != nil {
+						c.Fail(*f)
+					}
+				}
+			}
 			core := pol
 			if len(core) > 19 {
 				core = pol[:19]
@@ -574,7 +631,11 @@ func init() {
 				}
 			}()
 			if cs.Part == "sequential" {
-				if f, _ := c16CheckSeq(cs.Polluters, cs.Shared, c16BaseProbes); f != nil {
+				rep := cs.Repeat
+				if rep < 1 {
+					rep = 1
+				}
+				if f, _ := c16CheckSeqRep(cs.Polluters, rep, cs.Shared, c16BaseProbes); f != nil {
 					c.Fail(*f)
 				}
 				return
@@ -612,18 +673,29 @@ func init() {
 func c16Race() string {
 	in := c16NewInterp()
 	// everything the harness itself shares is set up before the goroutines start
+	// (one sequential pass creates the files and gives every request's answer when served alone)
+	alone := map[string]string{}
 	for _, rq := range c16Reqs {
-		if rq.Handler == "http" {
-			os.WriteFile(filepath.Join(c16TempDir(), rq.Name+".zn"), []byte(rq.Source), 0o644)
-		}
+		alone[rq.Name] = c16Serve(c16NewInterp(), rq)
 	}
 	defer os.RemoveAll(c16TempDir())
+	var mm sync.Mutex
+	mismatches := map[string]string{}
+	serve := func(rq c16Req) {
+		if got := c16Serve(in, rq); got != alone[rq.Name] && rq.Name != "n-random" {
+			mm.Lock()
+			if _, seen := mismatches[rq.Name]; !seen {
+				mismatches[rq.Name] = fmt.Sprintf("CONCURRENT-MISMATCH request %s answered %q while other requests were being served; alone it is answered %q", rq.Name, clipS(got, 200), clipS(alone[rq.Name], 200))
+			}
+			mm.Unlock()
+		}
+	}
 	done := make(chan bool)
 	for g := 0; g < 8; g++ {
 		go func(g int) {
 			for i := 0; i < 200; i++ {
 				rq := c16Reqs[(g+i)%len(c16Reqs)]
-				c16Serve(in, rq)
+				serve(rq)
 			}
 			done <- true
 		}(g)
@@ -639,7 +711,7 @@ func c16Race() string {
 		for g := 0; g < 8; g++ {
 			go func() {
 				for i := 0; i < 40; i++ {
-					c16Serve(in, rq)
+					serve(rq)
 				}
 				done <- true
 			}()
@@ -648,5 +720,9 @@ func c16Race() string {
 			<-done
 		}
 	}
-	return "race pass finished"
+	out := "race pass finished"
+	for _, m := range mismatches {
+		out += "\n" + m
+	}
+	return out
 }
